@@ -88,6 +88,8 @@ pub enum Aux {
     Lifetime(u8),
     /// a callee waiting in `Promise::aborted()` for the call with this nonce
     Aborted(u64),
+    /// a producer waiting in `send_ready` on the sender in channel slot ch
+    SendReady(u8),
 }
 
 #[derive(Clone, Debug)]
@@ -1643,15 +1645,30 @@ async fn exec(w: &Rc<World>, t: &Rc<TaskCtx>, cc: &Rc<ClientCtx>, op: &Op) -> St
                 }
             }
         },
-        Op::Send { ch, n } => {
+        Op::Send { ch, n } | Op::SendWatch { ch, n } => {
+            let watch = matches!(op, Op::SendWatch { .. });
             let slot = &cc.snd[*ch as usize];
             if !slot.is_some() {
                 return skip(w);
             }
             let mut sent = 0;
             for _ in 0..*n {
+                if watch {
+                    // one poll of receiver_closed(), as a select! loop would do, then on to sending
+                    let closed = std::future::poll_fn(|cx| {
+                        Poll::Ready(slot.with(|e| match e {
+                            SndEnd::Est(s) => s.poll_receiver_closed(cx).is_ready(),
+                            _ => false,
+                        }))
+                    })
+                    .await;
+                    w.count("chan:receiver-closed-polled");
+                    if closed == Some(true) {
+                        break;
+                    }
+                }
                 let r = t
-                    .stream("send_ready", slot_op(slot, |e, cx| match e {
+                    .stream_aux("send_ready", Aux::SendReady(*ch), slot_op(slot, |e, cx| match e {
                         SndEnd::Est(s) => s.poll_send_ready(cx).map(Some),
                         _ => Poll::Ready(None),
                     }))
